@@ -200,7 +200,7 @@ PROPS = {
     ),
     "C18": dict(
         lean_targets=["SJ.Props.C18", "SJ.Audit.C18"],
-        configs=dict(quick=["d"], thorough=["d", "po", "ap"]),
+        configs=dict(quick=["d", "ap"], thorough=["d", "po", "ap"]),
         gen_keys=["pointer.", "index.", "partial_eq.", "jsonmacro."],
         rule="pointer: fixed index/escape corpus; every pointer of length <= 5 (thorough 6) over the alphabet /~01a- against a "
              "document with every escape-relevant key; every existing path of random documents in RFC-order, "
